@@ -105,6 +105,8 @@ pub fn role_index(role: Role) -> usize {
 
 static RECORDER: OnceLock<Arc<Recorder>> = OnceLock::new();
 
+pub fn recorder_installed() -> bool { RECORDER.get().is_some() }
+
 pub fn recorder() -> &'static Arc<Recorder> {
     RECORDER.get_or_init(|| {
         let recorder = Arc::new(Recorder {
